@@ -868,11 +868,25 @@ func (e *Engine) pos(st *State) string {
 	return "?"
 }
 
+// stablePos names the innermost source position in a way that survives line shifts: "pkg.Func `source line text`"
+func (e *Engine) stablePos(st *State) string {
+	for i := len(st.frames) - 1; i >= 0; i-- {
+		f := st.frames[i]
+		if f.ip < len(f.blk.Instrs) {
+			if p := f.blk.Instrs[f.ip].Pos(); p.IsValid() {
+				ps := e.prog.Fset.Position(p)
+				return fmt.Sprintf("%s `%s`", f.fn.String(), srcLine(ps.Filename, ps.Line))
+			}
+		}
+	}
+	return "?"
+}
+
 func (e *Engine) acc(st *State, obj int, path []int, write bool) {
 	if st.race == nil || e.pureDepth > 0 {
 		return
 	}
-	if r := st.race.access(st.cur, obj, path, write, e.pos(st)); r != "" {
+	if r := st.race.access(st.cur, obj, path, write, e.stablePos(st)); r != "" {
 		rr := e.sol.Check(st.pc)
 		if rr == "sat" {
 			key := r
@@ -1853,17 +1867,19 @@ func (e *Engine) intrinsic(st *State, fv Func, args []Value, x *ssa.Call) bool {
 			st.race.acquire(st.cur, "cond:"+ptrKey(p))
 		}
 	case short == "vndChoose":
+		// n-way choice as a chain of Boolean decisions (no bit-vector variable: keeps algebra queries in pure QF_NRA);
+		// the chosen index is recorded for the tape as a constant
 		n := e.concrete(st, args[1].(*Term))
 		tag := strOf(args[0])
-		c := st.fresh(tag, 8)
-		st.pc = append(st.pc, Cmp("bvult", c, BV(8, uint64(n))))
 		r := n - 1
 		for i := 0; i < n-1; i++ {
-			if e.decide(st, Eq(c, BV(8, uint64(i)))) {
+			if e.decide(st, st.fresh("choosebit", 0)) {
 				r = i
 				break
 			}
 		}
+		st.named = append(st.named, intern(&Term{op: "const", w: 8, val: uint64(r), name: fmt.Sprintf("%s#%d", tag, st.nvars)}))
+		st.tags = append(st.tags, tag)
 		st.trace = append(st.trace, fmt.Sprintf("%s=%d", tag, r))
 		set(BV(64, uint64(r)))
 	case short == "vndAssume":
